@@ -19,7 +19,8 @@ SHARDS = 16
 RULE = ("island shape alphabet x EVERY integer offset of the island in a 7x7 window centred on a pixel of the region's "
         "edge (so each island is swept pixel by pixel from inside to outside, with unequal row/column offsets) x region "
         "kind x depth x WCS x (seed, flood); find_islands(region=) must equal the unrestricted result filtered by 'has an "
-        "own pixel whose centre is in the region'; a slice through find_sources_in_image(mask=) and the aegean CLI; "
+        "own pixel whose centre is in the region'; a slice through find_sources_in_image(mask=) and the aegean CLI; histories: "
+        "one mask file rewritten between runs of one process, every ordered pair of five regions (A, B, A); "
         "non-trivial = placement where the island straddles the edge (some own pixels in, some out); distinct = case")
 ASSUMPTIONS = ["pixel centre sky positions from the independent zenithal WCS model; membership = healpy ang2pix into the "
                "region's own deepest-level set",
